@@ -207,10 +207,12 @@ var (
 		Text: "values recognised by identity are never re-made: no composite literal or new() of a type whose package-level singleton (true, false, undefined) is compared with == anywhere in the module, apart from the singleton's own initialiser and the gob.Register prototype"}
 	rPOS2 = &Rule{Name: "POS.2", Floor: 1, Fn: rulePOS2,
 		Text: "files of a file set occupy disjoint position ranges: AddFile advances the set's base by the file's size plus at least one (containment includes the end position)"}
-	rIDX2 = &Rule{Name: "IDX.2", Floor: 20, Fn: ruleIDX2,
+	rIDX2 = &Rule{Name: "IDX.2", Floor: 60, Fn: ruleIDX2,
 		Text: "implicit panics of the scanner and parser: every index or slice expression of package parser whose bounds check the Go compiler's prove pass cannot eliminate (build with -d=ssa/check_bce; nothing is run) is dominated by a test of that index against len() of that base, or is one of the sites confirmed by reading and tabled with its invariant"}
 	rDEDUP5 = &Rule{Name: "DEDUP.5", Floor: 1, Fn: ruleDEDUP5,
 		Text: "merging constants creates no sharing the program can see: imports of a builtin module are separate objects before de-duplication and one object after it (re-derived; a listed finding)"}
+	rBLT1 = &Rule{Name: "BLT.1", Floor: 60, Fn: ruleBLT1,
+		Text: "the builtin table: each name is bound to the function spelled like it; the documented builtins are the table's; each is_<type> predicate answers true for exactly the type its name says and false otherwise"}
 	rCALL1 = &Rule{Name: "CALL.1", Floor: 1, Fn: ruleCALL1,
 		Text: "the array of variadic arguments that OpCall builds stands on storage made in that arm, never on the slice of a spread operand (SSA value-origin analysis)"}
 	rADPT6 = &Rule{Name: "ADPT.6", Floor: 2, Fn: ruleADPT6,
@@ -232,7 +234,7 @@ func allProperties() []*Property {
 		{ID: "C01",
 			Decided:    "compiler, generic codec, opcode tables and every VM arm agree byte for byte on the instruction format.",
 			NotDecided: "the language semantics themselves (values computed by operators, control flow, scoping, builtins).",
-			Rules:      []*Rule{rCODEC1, rCODEC2, rCODEC3, rCODEC4, rFRESH, rOPARM, rOPDOC, rSEM, rSEM3, rIDX1, rTWIN1, rFAM1, rSYM1, rSYM3, rCALL1, rSTK1, rSTK2}},
+			Rules:      []*Rule{rCODEC1, rCODEC2, rCODEC3, rCODEC4, rFRESH, rOPARM, rOPDOC, rSEM, rSEM3, rIDX1, rTWIN1, rFAM1, rSYM1, rSYM3, rCALL1, rSTK1, rSTK2, rBLT1}},
 		{ID: "C02",
 			Decided:    "instruction format agreement; opcode-class agreement.",
 			NotDecided: "stack balance and jump well-formedness for all compiled programs.",
